@@ -23,7 +23,7 @@ ASSUMPTIONS = ["the entry to restore is addressed by the index printed for it in
 
 MKINDS = ["non_trashinfo", "empty", "truncated", "binary", "nonutf8", "no_path", "no_date",
           "bad_date", "no_payload", "orphan", "dir_trashinfo", "dangling_trashinfo", "long_orphan",
-          "long_non_trashinfo"]
+          "long_non_trashinfo", "tz_date"]
 CMDS = ["list", "restore_date", "restore_path", "restore_none", "rm", "empty", "empty_days"]
 
 
@@ -98,6 +98,10 @@ def build(case, with_m):
                 tw.nodes += [{"p": ip, "t": "b", "b": list(b"[Trash Info]\nPath=" + oracle.pct_encode(pv) + b"\n")}, pay]
             elif k == "bad_date":
                 tw.nodes += [{"p": ip, "t": "b", "b": list(b"[Trash Info]\nPath=" + oracle.pct_encode(pv) + b"\nDeletionDate=yesterday\n")}, pay]
+            elif k == "tz_date":
+                # RFC 3339 style date with a zone: not the spec's format, i.e. an invalid date
+                z = [b"2001-02-03T04:05:06Z", b"2001-02-03T04:05:06+01:00", b"2001-02-03T04:05:06+0100"][len(nm) % 3]
+                tw.nodes += [{"p": ip, "t": "b", "b": list(b"[Trash Info]\nPath=" + oracle.pct_encode(pv) + b"\nDeletionDate=" + z + b"\n")}, pay]
             elif k == "no_payload":
                 tw.nodes += [{"p": ip, "t": "b", "b": list(good)}]
             elif k == "orphan":
